@@ -8,6 +8,6 @@ CONSTANTS MaxDepth = 8
           CbBelow = 2
           AuxDepth = 3
           Lean = TRUE
-          Repaired = {7, 9}
+          Repaired = {7, 9, 10}
 INVARIANTS L2ImpliesL1
 CHECK_DEADLOCK FALSE
